@@ -39,8 +39,8 @@ impl Check for C03 {
     }
     fn lanes(&self, tier: Tier) -> Vec<(&'static str, usize, usize)> {
         match tier {
-            Tier::Quick => vec![("unique", 6000, 400), ("or-heavy", 6000, 500)],
-            Tier::Thorough => vec![("unique", 300_000, 500), ("or-heavy", 300_000, 600)],
+            Tier::Quick => vec![("unique", 12_000, 400), ("or-heavy", 16_000, 500)],
+            Tier::Thorough => vec![("unique", 400_000, 500), ("or-heavy", 500_000, 600)],
         }
     }
     fn run_case(&self, lane: &str, src: &mut Src, rep: &mut Report) -> Result<(), Failure> {
@@ -147,7 +147,9 @@ impl Check for C03 {
         if path == Path::KeyPath {
             rep.class("key-path");
         }
-        let budget = Budget { max_len: 14, max_nodes: 500_000 };
+        // most second witnesses are found within a few thousand runs: two thirds of the cases
+        // search with a small budget (more cases per second), one third with the full one
+        let budget = if src.chance(2, 3) { Budget { max_len: 12, max_nodes: 40_000 } } else { Budget { max_len: 14, max_nodes: 500_000 } };
         let mut truncated = false;
         let mut unused_material = false;
         for (i, u) in us.iter().enumerate() {
